@@ -383,6 +383,10 @@ func checkC10(c *Ctx, r *Report) {
 	checkOneWriteOneRead(c, r)
 	checkSendSites(c, r)
 	checkContextUndiminished(c, r)
+	// "each retransmission being a complete, correctly addressed encoding": signed from clean
+	// hash state — a reply rejected just before the retransmission must not be left in the
+	// session's HMAC (shared with C03, C17)
+	checkHashAlwaysReset(c, r)
 }
 
 // lateFailure: the path classified the completion code as final and then found a call's error
